@@ -9,6 +9,7 @@ import (
 	"encoding/binary"
 	"errors"
 	"fmt"
+	"math/big"
 	"sort"
 	"strconv"
 	"strings"
@@ -61,13 +62,18 @@ func pvKey(name string) []byte {
 	return append(append([]byte{0x10}, name...), 0, 1)
 }
 
-// pvAction reads every declared key (the output lists what it saw), then writes the keys marked
-// for writing with the value "w<nonce>".
+// pvAction reads every declared key (the output lists what it saw), then treats each key by its
+// mode: 0 read only (declared Read); 'w' write "w<nonce>"; 'r' declared with write permission but only
+// read; 's' rewrite the value it just read (unchanged content); 'd' delete. With Fail set the action
+// returns an error after its writes, so the transaction is rolled back.
 type pvAction struct {
-	Nonce  uint64
-	Keys   []string
-	Writes []bool
+	Nonce uint64
+	Keys  []string
+	Modes []byte
+	Fail  bool
 }
+
+var errPVScripted = errors.New("scripted action failure")
 
 func (*pvAction) GetTypeID() uint8                      { return pvActionID }
 func (*pvAction) ValidRange(chain.Rules) (int64, int64) { return -1, -1 }
@@ -79,11 +85,10 @@ func (a *pvAction) Bytes() []byte {
 	for i, k := range a.Keys {
 		b = append(b, byte(len(k)))
 		b = append(b, k...)
-		if a.Writes[i] {
-			b = append(b, 1)
-		} else {
-			b = append(b, 0)
-		}
+		b = append(b, a.Modes[i])
+	}
+	if a.Fail {
+		b = append(b, 0xff)
 	}
 	return b
 }
@@ -92,7 +97,7 @@ func (a *pvAction) StateKeys(codec.Address, ids.ID) state.Keys {
 	ks := state.Keys{}
 	for i, k := range a.Keys {
 		p := state.Read
-		if a.Writes[i] {
+		if a.Modes[i] != 0 {
 			p = state.All
 		}
 		ks[string(pvKey(k))] |= p
@@ -102,12 +107,14 @@ func (a *pvAction) StateKeys(codec.Address, ids.ID) state.Keys {
 
 func (a *pvAction) Execute(ctx context.Context, _ chain.Rules, mu state.Mutable, _ int64, _ codec.Address, _ ids.ID) ([]byte, error) {
 	out := []byte{}
-	for _, k := range a.Keys {
+	seen := make([][]byte, len(a.Keys))
+	for i, k := range a.Keys {
 		v, err := mu.GetValue(ctx, pvKey(k))
 		switch {
 		case err == nil:
 			out = append(out, 1, byte(len(v)))
 			out = append(out, v...)
+			seen[i] = append([]byte{}, v...)
 		case strings.Contains(err.Error(), "not found"):
 			out = append(out, 0)
 		default:
@@ -115,11 +122,23 @@ func (a *pvAction) Execute(ctx context.Context, _ chain.Rules, mu state.Mutable,
 		}
 	}
 	for i, k := range a.Keys {
-		if a.Writes[i] {
-			if err := mu.Insert(ctx, pvKey(k), []byte("w"+strconv.FormatUint(a.Nonce, 10))); err != nil {
-				return nil, err
+		var err error
+		switch a.Modes[i] {
+		case 'w':
+			err = mu.Insert(ctx, pvKey(k), []byte("w"+strconv.FormatUint(a.Nonce, 10)))
+		case 's':
+			if seen[i] != nil {
+				err = mu.Insert(ctx, pvKey(k), seen[i])
 			}
+		case 'd':
+			err = mu.Remove(ctx, pvKey(k))
 		}
+		if err != nil {
+			return nil, err
+		}
+	}
+	if a.Fail {
+		return nil, errPVScripted
 	}
 	return out, nil
 }
@@ -162,6 +181,8 @@ func (v *pvView) GetValue(ctx context.Context, key []byte) ([]byte, error) {
 	f := v.fail[string(key)]
 	v.mu.Unlock()
 	if f {
+		// a slow failing read: it may return after the processor finished its Fetch loop
+		time.Sleep(time.Duration(len(key)%3) * time.Millisecond)
 		return nil, errPVInjected
 	}
 	return v.View.GetValue(ctx, key)
@@ -229,7 +250,9 @@ func pvExecute(t *testing.T, parent merkledb.View, root ids.ID, txs []*chain.Tra
 
 // ================================================================= C24 at block level
 //
-//   exec conc=<fetch concurrency> cores=<execution cores> P <key>=<rd>* T <tx>:<key>[+w],..*
+//   exec conc=<fetch concurrency> cores=<execution cores> P <key>=<rd>* T <tx>[!]:<key>[+w|+r|+s|+d],..*
+//     key modes: +w write a new value, +r declared writable but only read, +s rewrite the value read,
+//     +d delete; <tx>! = the action fails after its writes (the transaction is rolled back)
 //     rd: v<value> (any length incl. 0) | a (absent) | f (the parent read of that key fails)
 //     -> ok | err | hang
 // Oracle: parent reads ⊆ declared keys ∪ sponsor balance keys ∪ {height, timestamp, fee}, each
@@ -250,6 +273,9 @@ func TestVerifC24P(t *testing.T) {
 		r.Emit(l, out)
 		for _, v := range vios {
 			r.Violation(v[0], "%s (%s)", v[1], l)
+		}
+		if len(vios) > 0 {
+			r.Flush()
 		}
 	}
 }
@@ -290,8 +316,9 @@ func pv24Exec(t *testing.T, r *verifh.Run, f []string) (string, [][2]string) {
 		}
 	}
 	type txd struct {
-		keys   []string
-		writes []bool
+		keys  []string
+		modes []byte
+		fail  bool
 	}
 	var txds []txd
 	var txs []*chain.Transaction
@@ -302,17 +329,22 @@ func pv24Exec(t *testing.T, r *verifh.Run, f []string) (string, [][2]string) {
 		if len(p) != 2 {
 			return "bad-op", nil
 		}
-		d := txd{}
+		d := txd{fail: strings.HasSuffix(p[0], "!")}
 		seen := map[string]bool{}
 		if p[1] != "" {
 			for _, k := range strings.Split(p[1], ",") {
-				w := strings.HasSuffix(k, "+w")
-				k = strings.TrimSuffix(k, "+w")
+				var m byte
+				if q := strings.SplitN(k, "+", 2); len(q) == 2 {
+					if len(q[1]) != 1 || !strings.ContainsRune("wrsd", rune(q[1][0])) {
+						return "bad-op", nil
+					}
+					k, m = q[0], q[1][0]
+				}
 				if k == "" || seen[k] {
 					return "bad-op", nil
 				}
 				seen[k] = true
-				d.keys, d.writes = append(d.keys, k), append(d.writes, w)
+				d.keys, d.modes = append(d.keys, k), append(d.modes, m)
 				declared[string(pvKey(k))] = true
 				if fail[string(pvKey(k))] {
 					anyFail = true
@@ -323,7 +355,7 @@ func pv24Exec(t *testing.T, r *verifh.Run, f []string) (string, [][2]string) {
 		a := chaintest.NewDummyTestAuth()
 		a.SponsorAddress, a.ActorAddress = sponsor, sponsor
 		tx, err := chain.NewTransaction(chain.Base{Timestamp: pvTxTime, ChainID: pvChainID, MaxFee: 1 << 40},
-			[]chain.Action{&pvAction{Nonce: uint64(n), Keys: d.keys, Writes: d.writes}}, a)
+			[]chain.Action{&pvAction{Nonce: uint64(n), Keys: d.keys, Modes: d.modes, Fail: d.fail}}, a)
 		if err != nil {
 			t.Fatal(err)
 		}
@@ -387,9 +419,20 @@ func pv24Exec(t *testing.T, r *verifh.Run, f []string) (string, [][2]string) {
 		}
 	}
 	// ---- what every tx observed
-	last := map[string]string{} // key -> value written earlier in the block
+	type cur struct {
+		present bool
+		val     string
+	}
+	last := map[string]cur{} // key -> content after the earlier txs of the block that changed it
 	for n, d := range txds {
 		rs := res.out.ExecutionResults.Results[n]
+		if d.fail {
+			// a reverted transaction changes nothing (and reports no output)
+			if rs.Success {
+				viol("tx-failed", "tx %d should have been reverted by its failing action", n)
+			}
+			continue
+		}
 		if !rs.Success || len(rs.Outputs) != 1 {
 			viol("tx-failed", "tx %d did not execute: %s", n, rs.Error)
 			continue
@@ -402,7 +445,7 @@ func pv24Exec(t *testing.T, r *verifh.Run, f []string) (string, [][2]string) {
 		for j, k := range d.keys {
 			wantP, wantV := false, ""
 			if w, okw := last[k]; okw {
-				wantP, wantV = true, w
+				wantP, wantV = w.present, w.val
 			} else if rd, okp := parent[k]; okp && rd[0] == 'v' {
 				wantP, wantV = true, rd[1:]
 			}
@@ -411,8 +454,11 @@ func pv24Exec(t *testing.T, r *verifh.Run, f []string) (string, [][2]string) {
 			}
 		}
 		for j, k := range d.keys {
-			if d.writes[j] {
-				last[k] = "w" + strconv.Itoa(n)
+			switch d.modes[j] {
+			case 'w':
+				last[k] = cur{true, "w" + strconv.Itoa(n)}
+			case 'd':
+				last[k] = cur{false, ""}
 			}
 		}
 	}
@@ -427,6 +473,11 @@ func pv24Generate(r *verifh.Run) []string {
 		"exec conc=1 cores=1 P ka=v1 kb=v2 T 0:ka+w,kb 1:ka,kb+w 2:ka,kb",
 		"exec conc=3 cores=2 P ka=v1 kb=f T 0:ka 1:kb 2:ka",
 		"exec conc=1 cores=4 P ka=f T 0:ka+w 1:ka",
+		// an earlier tx declares a key writable but leaves it unchanged: only reads it, is rolled back,
+		// rewrites the identical value; a later tx must still see the parent's value
+		"exec conc=2 cores=2 P ka=v1 kb=v2 kc=v T 0:ka+r 1:ka,kb 2!:kb+w 3:kb 4:kc+s,ka+s 5:kc,ka",
+		"exec conc=1 cores=1 P ka=v7 T 0:ka+r 1:ka+r 2:ka",
+		"exec conc=3 cores=3 P ka=v7 kb=a T 0!:ka+w,kb+w 1:ka,kb 2:ka+d 3:ka 4:ka+w 5!:ka+d 6:ka",
 		"exec conc=2 cores=1 P ka=v" + strings.Repeat("y", 63) + " kb=v" + strings.Repeat("z", 64) + " T 0:ka 1:kb 2:ka,kb",
 	}
 	names := []string{"ka", "kb", "kc", "kd", "ke", "kf", "kg", "kh", "ki", "kj"}
@@ -461,13 +512,17 @@ func pv24Generate(r *verifh.Run) []string {
 			for j := 0; j < nk && len(ks) < 5; j++ {
 				if perm&(1<<uint(j)) != 0 && r.RNG.Chance(60) {
 					k := names[j]
-					if r.RNG.Chance(30) {
-						k += "+w"
+					if r.RNG.Chance(45) {
+						k += "+" + string("wwwrrssd"[r.RNG.Intn(8)])
 					}
 					ks = append(ks, k)
 				}
 			}
-			line += fmt.Sprintf(" %d:%s", n, strings.Join(ks, ","))
+			bang := ""
+			if r.RNG.Chance(12) {
+				bang = "!"
+			}
+			line += fmt.Sprintf(" %d%s:%s", n, bang, strings.Join(ks, ","))
 		}
 		out = append(out, line)
 	}
@@ -483,7 +538,30 @@ func pv24Generate(r *verifh.Run) []string {
 type pvSigner struct {
 	factories map[byte][]chain.AuthFactory
 	cache     map[string]*chain.Transaction
+	dPos      []*bls.Signature // G2 elements d_j
+	dNeg      []*bls.Signature // -d_j
 }
+
+// The 14 encodings of the 8 small-order points of edwards25519 (8 canonical, 6 non-canonical:
+// y >= p and/or "negative zero" x), as in the ZIP-215 test vectors.
+var pvSmallOrder = []string{
+	"0100000000000000000000000000000000000000000000000000000000000000",
+	"ecffffffffffffffffffffffffffffffffffffffffffffffffffffffffffff7f",
+	"0000000000000000000000000000000000000000000000000000000000000000",
+	"0000000000000000000000000000000000000000000000000000000000000080",
+	"26e8958fc2b227b045c3f489f2ef98f0d5dfac05d3c63339b13802886d53fc05",
+	"26e8958fc2b227b045c3f489f2ef98f0d5dfac05d3c63339b13802886d53fc85",
+	"c7176a703d4dd84fba3c0b760d10670f2a2053fa2c39ccc64ec7fd7792ac037a",
+	"c7176a703d4dd84fba3c0b760d10670f2a2053fa2c39ccc64ec7fd7792ac03fa",
+	"0100000000000000000000000000000000000000000000000000000000000080",
+	"eeffffffffffffffffffffffffffffffffffffffffffffffffffffffffffff7f",
+	"eeffffffffffffffffffffffffffffffffffffffffffffffffffffffffffffff",
+	"ecffffffffffffffffffffffffffffffffffffffffffffffffffffffffffffff",
+	"edffffffffffffffffffffffffffffffffffffffffffffffffffffffffffff7f",
+	"edffffffffffffffffffffffffffffffffffffffffffffffffffffffffffffff",
+}
+
+var pvBLSOrder, _ = new(big.Int).SetString("73eda753299d7d483339d80809a1d80553bda402fffe5bfeffffffff00000001", 16)
 
 func pvNewSigner(t *testing.T) *pvSigner {
 	s := &pvSigner{factories: map[byte][]chain.AuthFactory{}, cache: map[string]*chain.Transaction{}}
@@ -491,12 +569,26 @@ func pvNewSigner(t *testing.T) *pvSigner {
 		ep, err1 := ed25519.GeneratePrivateKey()
 		sp, err2 := secp256r1.GeneratePrivateKey()
 		bp, err3 := bls.GeneratePrivateKey()
-		if err := errors.Join(err1, err2, err3); err != nil {
+		dk, err4 := bls.GeneratePrivateKey()
+		if err := errors.Join(err1, err2, err3, err4); err != nil {
 			t.Fatal(err)
 		}
 		s.factories['e'] = append(s.factories['e'], auth.NewED25519Factory(ep))
 		s.factories['s'] = append(s.factories['s'], auth.NewSECP256R1Factory(sp))
 		s.factories['b'] = append(s.factories['b'], auth.NewBLSFactory(bp))
+		// d = dk*H(m) and -d = (r-dk)*H(m): a pair of opposite G2 elements
+		neg := make([]byte, 32)
+		new(big.Int).Sub(pvBLSOrder, new(big.Int).SetBytes(bls.PrivateKeyToBytes(dk))).FillBytes(neg)
+		ndk, err := bls.PrivateKeyFromBytes(neg)
+		if err != nil {
+			t.Fatal(err)
+		}
+		d, err5 := bls.Sign([]byte("offset"), dk)
+		nd, err6 := bls.Sign([]byte("offset"), ndk)
+		if err := errors.Join(err5, err6); err != nil {
+			t.Fatal(err)
+		}
+		s.dPos, s.dNeg = append(s.dPos, d), append(s.dNeg, nd)
 	}
 	return s
 }
@@ -508,14 +600,66 @@ func (s *pvSigner) addresses() []codec.Address {
 			as = append(as, f.Address())
 		}
 	}
+	for _, h := range pvSmallOrder {
+		var pk ed25519.PublicKey
+		copy(pk[:], verifh.MustUnHex(h))
+		as = append(as, auth.NewED25519Address(pk))
+	}
 	return as
 }
 
-func (s *pvSigner) tx(ty byte, pos int, kind byte) *chain.Transaction {
-	key := fmt.Sprintf("%c/%d/%c", ty, pos, kind)
+// pvItemOK: item tokens. <t><k> with t = e|s|b and k = 1 valid | 0 corrupted signature | 2 other message signed;
+// e3[.<i>.<j>]: ed25519 with small-order signer encoding i, R encoding j (default 0.0), s = 0 — valid for
+// every message under ZIP-215; e4: the same with s = 1 — invalid; b5 / b6: BLS signature plus / minus a G2
+// element d (the k-th b5 and the k-th b6 of a block use the same d) — each invalid on its own.
+func pvItemOK(tok string) bool {
+	if strings.HasPrefix(tok, "e3.") {
+		p := strings.Split(tok, ".")
+		if len(p) != 3 {
+			return false
+		}
+		for _, x := range p[1:] {
+			n, err := strconv.Atoi(x)
+			if err != nil || n < 0 || n >= len(pvSmallOrder) || strconv.Itoa(n) != x {
+				return false
+			}
+		}
+		return true
+	}
+	if len(tok) != 2 || !strings.ContainsRune("esb", rune(tok[0])) {
+		return false
+	}
+	switch tok[1] {
+	case '0', '1', '2':
+		return true
+	case '3', '4':
+		return tok[0] == 'e'
+	case '5', '6':
+		return tok[0] == 'b'
+	}
+	return false
+}
+
+// pvItemValid: does the item verify one-by-one (what the Lean model is told)
+func pvItemValid(tok string) bool { return tok[1] == '1' || tok[1] == '3' }
+
+// pvPairs: for every item its ordinal among the items of the same kind (selects d for b5/b6)
+func pvPairs(toks []string) []int {
+	cnt := map[string]int{}
+	out := make([]int, len(toks))
+	for i, t := range toks {
+		out[i] = cnt[t[:2]]
+		cnt[t[:2]]++
+	}
+	return out
+}
+
+func (s *pvSigner) item(tok string, pos, pair int) *chain.Transaction {
+	key := fmt.Sprintf("%s/%d/%d", tok, pos, pair%len(s.dPos))
 	if tx, ok := s.cache[key]; ok {
 		return tx
 	}
+	ty, kind := tok[0], tok[1]
 	fs := s.factories[ty]
 	f := fs[pos%len(fs)]
 	base := chain.Base{Timestamp: pvTxTime, ChainID: pvChainID, MaxFee: 1 << 40}
@@ -528,6 +672,29 @@ func (s *pvSigner) tx(ty byte, pos int, kind byte) *chain.Transaction {
 		a, err = f.Sign(td.UnsignedBytes())
 	case '2':
 		a, err = f.Sign(append(append([]byte{}, td.UnsignedBytes()...), 0x01))
+	case '3', '4':
+		ai, ri := 0, 0
+		if p := strings.Split(tok, "."); len(p) == 3 {
+			ai, _ = strconv.Atoi(p[1])
+			ri, _ = strconv.Atoi(p[2])
+		}
+		e := &auth.ED25519{}
+		copy(e.Signer[:], verifh.MustUnHex(pvSmallOrder[ai]))
+		copy(e.Signature[:32], verifh.MustUnHex(pvSmallOrder[ri]))
+		if kind == '4' {
+			e.Signature[32] = 1
+		}
+		a = e
+	case '5', '6':
+		a, err = f.Sign(td.UnsignedBytes())
+		if err == nil {
+			d := s.dPos[pair%len(s.dPos)]
+			if kind == '6' {
+				d = s.dNeg[pair%len(s.dNeg)]
+			}
+			v := a.(*auth.BLS)
+			v.Signature, err = bls.AggregateSignatures([]*bls.Signature{v.Signature, d})
+		}
 	default:
 		a, err = f.Sign(td.UnsignedBytes())
 		if err == nil {
@@ -588,7 +755,7 @@ func (e *pv16Env) exec(t *testing.T, r *verifh.Run, l string, f []string) {
 		w, err = strconv.Atoi(f[1][2:])
 		ok = err == nil && w >= 1 && w <= 64
 		for _, it := range f[2:] {
-			if len(it) != 2 || !strings.ContainsRune("esb", rune(it[0])) || !strings.ContainsRune("012", rune(it[1])) {
+			if !pvItemOK(it) {
 				ok = false
 			}
 		}
@@ -597,18 +764,19 @@ func (e *pv16Env) exec(t *testing.T, r *verifh.Run, l string, f []string) {
 		r.Emit(l, "bad-op")
 		return
 	}
+	pairs := pvPairs(f[2:])
 	txs := make([]*chain.Transaction, 0, len(f)-2)
 	want := true
 	var broken []string
 	for i, it := range f[2:] {
-		tx := e.signer.tx(it[0], i, it[1])
+		tx := e.signer.item(it, i, pairs[i])
 		txs = append(txs, tx)
 		// oracle: one-by-one Auth.Verify over the tx's unsigned bytes
 		verr := tx.Auth.Verify(context.Background(), tx.UnsignedBytes())
 		if verr != nil {
 			want = false
 		}
-		if (it[1] == '1') != (verr == nil) {
+		if pvItemValid(it) != (verr == nil) {
 			broken = append(broken, fmt.Sprintf("item %d (%s): one-by-one verification says %v", i, it, verr))
 		}
 	}
@@ -703,6 +871,26 @@ func pv16Generate(r *verifh.Run) []string {
 			items[p] = items[p][:1] + string("02"[r.RNG.Intn(2)])
 		}
 		out = append(out, line(w, items))
+	}
+	// ZIP-215 edge vectors and BLS offset pairs through Chain.Execute
+	for a := 0; a < len(pvSmallOrder); a++ {
+		out = append(out, line(1+a%4, []string{"e1", fmt.Sprintf("e3.%d.%d", a, (a*3+10)%len(pvSmallOrder)), "e1", "e1", "s1"}))
+	}
+	for i := 0; i < r.N(20, 600); i++ {
+		n := 1 + r.RNG.Intn(9)
+		it := rep("e1", n)
+		it[r.RNG.Intn(n)] = fmt.Sprintf("e3.%d.%d", r.RNG.Intn(len(pvSmallOrder)), r.RNG.Intn(len(pvSmallOrder)))
+		out = append(out, line(1+r.RNG.Intn(8), it))
+	}
+	for _, w := range []int{1, 2, 4} {
+		for _, n := range []int{2, 5, 8} {
+			it := rep("b1", n)
+			it[0], it[n-1] = "b5", "b6"
+			out = append(out, line(w, it))
+			it = rep("b1", n)
+			it[n/2-1+n%2], it[n/2+n%2] = "b6", "b5"
+			out = append(out, line(w, it))
+		}
 	}
 	sort.SliceStable(out, func(i, j int) bool { return false })
 	return out
